@@ -71,7 +71,7 @@ EVENTS = ["GO", "SPAWN", "DSEND", "DSEND2", "FIN", "BAD", "STOPWORK", "SLOW", "G
 
 def plan(tier):
     q = tier == "quick"
-    out = [{"name": "main", "examples": 2500 if q else 40000}]
+    out = [{"name": "main", "examples": 2500 if q else 200000}]
     for f in findings.open_for(PROPERTY):
         if f.exclude_profile:
             out.append({"name": "probe:" + f.id, "examples": 400 if q else 4000, "shards": 4})
